@@ -21,6 +21,10 @@ from lbry.wallet.usage_payment import WalletServerPayer
 from lbry.wallet.stream import StreamController
 from lbry.wallet.dewies import dewies_to_lbc
 from binascii import unhexlify
+import logging
+from lbry.wallet.network import Network
+from lbry.wallet.rpc.jsonrpc import RPCError
+from lbry.wallet.account import AddressManager
 
 import vlib
 from props import c03
@@ -113,7 +117,7 @@ class Instrument:
         lab_reserve = labelled('reserve', ledger.reserve_outputs)
 
         async def reserve(txos):
-            r = await lab_reserve(list(txos))
+            r = await lab_reserve(txos)       # handed on as it came (it may be a generator)
             self.pre_done.add(cur_build.get())
             return r
         self.patch(ledger, 'reserve_outputs', reserve)
@@ -148,11 +152,12 @@ class Instrument:
         self.saved = []
 
 
-class FakeNetwork:
-    """the wallet server underneath the real WalletManager / Ledger / WalletServerPayer: per build it accepts the
-    broadcast, rejects it with an exception, never answers (the pending call is then cancelled by the caller), or the
-    connection is down; for the periodic payer the connection is lost during its first send and is back afterwards.
-    Outside a build (the reconnect handler) it is offline, so that ledger.join_network() needs no server."""
+class FakeSession:
+    """the wallet-server session underneath the REAL lbry.wallet.network.Network (and so underneath the real
+    WalletManager / Ledger / WalletServerPayer / Account.fund): per build the server accepts the broadcast, rejects it
+    (RPCError), never answers (the pending call is then cancelled by the caller), or the connection is down; for the
+    periodic payer the connection is lost during its first send and is back afterwards.  Outside a build (the reconnect
+    handler) the session is closed, so that ledger.join_network() needs no server."""
 
     def __init__(self, behaviour, events):
         self.behaviour = behaviour        # build -> 'accept' | 'reject' | 'hang' | 'down' | 'payer'
@@ -160,29 +165,28 @@ class FakeNetwork:
         self.attempts = {}
         self.features = {}
         self.payers = {}
-        self._connected = StreamController()
-        self.on_connected = self._connected.stream
+        self.server = ('fake', 50001)
 
-    @property
-    def is_connected(self):
+    def is_closing(self):
         mode = self.behaviour.get(cur_build.get())
-        return mode is not None and mode != 'down'
+        return mode is None or mode == 'down'
 
-    async def get_server_features(self):
+    async def send_request(self, method, args=()):
         b = cur_build.get()
-        if b in self.payers:
-            self.payers[b].running = False       # one payment per case: the pay loop ends after this round
-        return self.features
-
-    async def broadcast(self, raw):
-        b = cur_build.get()
+        if method == 'server.features':
+            if b in self.payers:
+                self.payers[b].running = False       # one payment per case: the pay loop ends after this round
+            return self.features
+        if method != 'blockchain.transaction.broadcast':
+            raise RPCError(-32601, 'unknown method ' + method)
+        raw = args[0]
         mode = self.behaviour.get(b, 'accept')
         self.attempts[b] = self.attempts.get(b, 0) + 1
         await asyncio.sleep(0)
-        if mode == 'down' or (mode == 'payer' and self.attempts[b] == 1):
+        if mode == 'payer' and self.attempts[b] == 1:
             raise ConnectionError('connection to the wallet server lost')
         if mode == 'reject':
-            raise ConnectionError('broadcast refused')
+            raise RPCError(1, 'the transaction was rejected by network rules.')
         if mode == 'hang':
             await asyncio.Event().wait()
         # accepted: from now on the network knows this transaction and will confirm it
@@ -217,24 +221,55 @@ async def run_concurrent(world, case):
     results = {}
     old_network = ledger.network
 
+    orig_change_address = AddressManager.get_or_create_usable_address
+    at_change = {}
+
+    async def change_address(self_):
+        d_ = case['builds'][cur_build.get()] if isinstance(cur_build.get(), int) else {}
+        if d_.get('action') == 'cancel_change':
+            at_change[cur_build.get()] = True
+            await asyncio.sleep(3600)          # the caller cancels the build here
+        return await orig_change_address(self_)
+    AddressManager.get_or_create_usable_address = change_address
+
+    async def mark_spent(b, tx):
+        tok = op_label.set(('spend', b))
+        try:
+            def mark(conn):
+                for t in tx.inputs:
+                    if t.txo_ref.id not in rid_of:
+                        continue
+                    conn.execute("INSERT OR IGNORE INTO txi (txid, txoid, address, position) VALUES (?, ?, ?, ?)",
+                                 ('sp%d' % b, t.txo_ref.id, 'x', t.position)).fetchall()
+            await ledger.db.db.run(mark)
+        finally:
+            op_label.reset(tok)
+
     async def job(b, d):
         cur_build.set(b)
         for _ in range(d.get('delay', 0)):
             await asyncio.sleep(0)
-        while d.get('after_sync') is not None and d['after_sync'] not in synced:
-            await asyncio.sleep(0.001)
-        while d.get('after_done_of') is not None and 'status' not in results.get(d['after_done_of'], {}):
-            await asyncio.sleep(0.001)
-        while d.get('after_tx_of') is not None and 'tx' not in results.get(d['after_tx_of'], {}) \
-                and 'status' not in results.get(d['after_tx_of'], {}):
-            await asyncio.sleep(0.001)
-        while d.get('after_read_of') is not None and not any(k == 'read' and x == d['after_read_of'] for k, x, _ in events):
-            await asyncio.sleep(0.001)
-        while d.get('after_payer_fail') is not None and not (
-                ledger.network.attempts.get(d['after_payer_fail']) and ins.released.get(d['after_payer_fail']) is not None):
-            if 'status' in results.get(d['after_payer_fail'], {}):
-                break
-            await asyncio.sleep(0.001)
+        async def until(cond, limit=3000):
+            # scheduling aid of hand-made cases: never waits for ever
+            for _ in range(limit):
+                if cond():
+                    return
+                await asyncio.sleep(0.001)
+
+        def over(x_):
+            return 'status' in results.get(x_, {})
+        if d.get('after_sync') is not None:
+            await until(lambda: d['after_sync'] in synced)
+        if d.get('after_done_of') is not None:
+            await until(lambda: over(d['after_done_of']))
+        if d.get('after_tx_of') is not None:
+            await until(lambda: 'tx' in results.get(d['after_tx_of'], {}) or over(d['after_tx_of']))
+        if d.get('after_read_of') is not None:
+            await until(lambda: any(k in ('read', 'sqlite') and x == d['after_read_of'] for k, x, _ in events)
+                        or over(d['after_read_of']) or 'tx' in results.get(d['after_read_of'], {}))
+        if d.get('after_payer_fail') is not None:
+            await until(lambda: (hub.attempts.get(d['after_payer_fail']) and ins.released.get(d['after_payer_fail']) is not None)
+                        or over(d['after_payer_fail']))
         if d.get('payer'):
             # the real periodic WalletServerPayer makes this payment: it builds, signs and sends through
             # ledger.broadcast_or_release; the hub connection is lost during the send
@@ -242,25 +277,76 @@ async def run_concurrent(world, case):
             res = {'pre_desc': [], 'outs': outs, 'pre_wallet': [], 'payer': True}
             results[b] = res
             payer = WalletServerPayer(payment_period=0, max_fee='9999999999.0')
-            ledger.network.payers[b] = payer
-            ledger.network.features = {'payment_address': ledger.hash160_to_address(bytes([d['outs'][0].get('tag', 7)]) * 20),
+            hub.payers[b] = payer
+            hub.features = {'payment_address': ledger.hash160_to_address(bytes([d['outs'][0].get('tag', 7)]) * 20),
                                        'daily_fee': dewies_to_lbc(d['outs'][0]['amount'])}
             await payer.start(ledger, world.wallet)
             payers.append(payer)
             for _ in range(5000):
-                if payer.task.done() or (ledger.network.attempts.get(b) and ins.released.get(b) is not None):
+                if payer.task.done() or (hub.attempts.get(b) and ins.released.get(b) is not None):
                     break
                 await asyncio.sleep(0.001)
-            res['status'] = 'released' if ledger.network.attempts.get(b) else ('failed' if ins.asked.get(b) else 'prelock')
+            res['status'] = 'released' if hub.attempts.get(b) else ('failed' if ins.asked.get(b) else 'prelock')
+            return
+        if d.get('fund'):
+            # the real Account.fund: an amount to another account of the wallet, or everything; it builds, signs and
+            # broadcasts by itself
+            outs = c03.make_outputs(d['outs'])
+            res = {'pre_desc': [], 'outs': outs, 'pre_wallet': []}
+            results[b] = res
+            try:
+                if d['fund'] == 'everything':
+                    tx = await world.accounts[0].fund(world.accounts[1], everything=True, broadcast=True)
+                else:
+                    tx = await world.accounts[0].fund(world.accounts[1], amount=d['outs'][0]['amount'], broadcast=True)
+            except InsufficientFundsError:
+                res['status'] = 'failed'
+                return
+            except (ConnectionError, RPCError):
+                res['status'] = 'released'       # fund failed to send: the caller has no transaction, it is abandoned
+                res['fund_failed'] = True
+                return
+            res['tx'] = tx
+            n_pre = len(tx.inputs) if d['fund'] == 'everything' else 0
+            res['pre_wallet'] = [rid_of.get(t.txo_ref.id, -1) for t in tx.inputs[:n_pre]]
+            res['pre_desc'] = [[rid_of.get(t.txo_ref.id, -1), t.amount, 148] for t in tx.inputs[:n_pre]]
+            res['added'] = [rid_of.get(t.txo_ref.id, -1) for t in tx.inputs[n_pre:]]
+            extra = list(tx.outputs)[len(outs):]
+            res['change'] = extra[0].amount if len(extra) == 1 else (None if not extra else [o.amount for o in extra])
+            await ins.pause()
+            await mark_spent(b, tx)
+            res['status'] = 'broadcast'
             return
         pre, pre_desc = c03.make_pre(world, d, made, rid_of)
         outs = c03.make_outputs(d['outs'])
         res = {'pre_desc': pre_desc, 'outs': outs, 'pre_wallet': [x[0] for x in pre_desc if x[0] < c03.EXTERNAL_BASE]}
         results[b] = res
+        if d.get('action') == 'cancel_change':
+            # the caller cancels the build while it waits for its change address (request timeout, shutdown): the
+            # build has failed, whatever it had reserved has to be released
+            inner = asyncio.ensure_future(Transaction.create(pre, outs, funding_of(d), change_acc, sign=False))
+            while not inner.done() and not at_change.get(b):
+                await asyncio.sleep(0.001)
+            if not inner.done():
+                inner.cancel()
+                try:
+                    await inner
+                except asyncio.CancelledError:
+                    pass
+                res['status'] = 'failed'
+                res['cancelled'] = True
+                return
+            d = dict(d, action='release')
+            create_result = inner
+        else:
+            create_result = None
         signing = bool(d.get('sign'))
         fault = signing and (bool(case.get('locked')) or c03.GHOST in case['funding'])
         try:
-            tx = await Transaction.create(pre, outs, funding_of(d), change_acc, sign=signing)
+            if create_result is not None:
+                tx = await create_result
+            else:
+                tx = await Transaction.create(pre, outs, funding_of(d), change_acc, sign=signing)
         except InsufficientFundsError:
             res['status'] = 'failed'
             return
@@ -285,9 +371,9 @@ async def run_concurrent(world, case):
         elif act == 'broadcast_fail':
             try:
                 await manager.broadcast_or_release(tx)
-                res['status'] = 'EXC broadcast did not fail'
-            except ConnectionError:
-                res['status'] = 'released'
+            except (ConnectionError, RPCError):
+                pass
+            res['status'] = 'released'      # the server rejected it: it will never confirm, it is abandoned
         elif act == 'broadcast_cancel':
             # the server never answers; the caller gives up (wait_for timeout / task.cancel): the transaction was never
             # sent, it is abandoned
@@ -312,22 +398,22 @@ async def run_concurrent(world, case):
             # accepted by the network through the real broadcast_or_release; what the ledger then records: inputs spent
             await manager.broadcast_or_release(tx)
             await ins.pause()
-            tok = op_label.set(('spend', b))
-            try:
-                def mark(conn):
-                    for t in tx.inputs:
-                        if t.txo_ref.id not in rid_of:
-                            continue
-                        conn.execute("INSERT OR IGNORE INTO txi (txid, txoid, address, position) VALUES (?, ?, ?, ?)",
-                                     ('sp%d' % b, t.txo_ref.id, 'x', t.position)).fetchall()
-                await ledger.db.db.run(mark)
-            finally:
-                op_label.reset(tok)
+            await mark_spent(b, tx)
             res['status'] = 'broadcast'
         else:
             res['status'] = 'finish'        # still in flight when the case ends
 
     ins.install()
+    debug_state = None
+    if case.get('debug_log'):
+        # the ledger logger at DEBUG (nothing is printed): logging must not change what is reserved
+        lg = logging.getLogger('lbry.wallet.ledger')
+        debug_state = (logging.root.manager.disable, lg.level, lg.propagate, list(lg.handlers), list(logging.root.handlers))
+        logging.root.handlers = [logging.NullHandler()]      # everything else stays silent as well
+        logging.disable(logging.NOTSET)
+        lg.setLevel(logging.DEBUG)
+        lg.propagate = False
+        lg.handlers = [logging.NullHandler()]
     with_pre = [b for b, d in enumerate(case['builds']) if any(p['kind'] == 'wallet' for p in d.get('pre', []))]
 
     async def barrier():
@@ -349,9 +435,11 @@ async def run_concurrent(world, case):
                 break
             await asyncio.sleep(0.001)
     ins.after_read = after_read
-    ledger.network = FakeNetwork({b: {'broadcast_fail': 'reject', 'broadcast_cancel': 'hang', 'broadcast_down': 'down',
-                                      'payer_down': 'payer'}.get(d['action'], 'accept')
-                                  for b, d in enumerate(case['builds'])}, events)
+    hub = FakeSession({b: {'broadcast_fail': 'reject', 'broadcast_cancel': 'hang', 'broadcast_down': 'down',
+                           'payer_down': 'payer', 'fund_reject': 'reject'}.get(d['action'], 'accept')
+                       for b, d in enumerate(case['builds'])}, events)
+    ledger.network = Network(ledger)          # the real Network; only its session is fake
+    ledger.network.client = hub
     manager = WalletManager(wallets=[world.wallet], ledgers={type(ledger): ledger})
     payers = []
 
@@ -361,7 +449,9 @@ async def run_concurrent(world, case):
         for _ in range(rd.get('delay', 0)):
             await asyncio.sleep(0)
         if rd.get('after') is not None:
-            while 'tx' not in results.get(rd['after'], {}) and 'status' not in results.get(rd['after'], {}):
+            for _ in range(3000):
+                if 'tx' in results.get(rd['after'], {}) or 'status' in results.get(rd['after'], {}):
+                    break
                 await asyncio.sleep(0.001)
         tok = op_label.set(('sync', 'relother%d' % k))
         try:
@@ -379,7 +469,9 @@ async def run_concurrent(world, case):
             await asyncio.sleep(0)
         if sd.get('after') is not None:
             # wait until that build holds its inputs (its transaction has been returned)
-            while 'tx' not in results.get(sd['after'], {}) and 'status' not in results.get(sd['after'], {}):
+            for _ in range(3000):
+                if 'tx' in results.get(sd['after'], {}) or 'status' in results.get(sd['after'], {}):
+                    break
                 await asyncio.sleep(0.001)
         for ti in sd['txs']:
             ftx, hashes = world.funding_txs[ti]
@@ -402,11 +494,13 @@ async def run_concurrent(world, case):
             for _ in range(rd.get('delay', 0)):
                 await asyncio.sleep(0)
             if rd.get('after') is not None:
-                while 'tx' not in results.get(rd['after'], {}) and 'status' not in results.get(rd['after'], {}):
+                for _ in range(3000):
+                    if 'tx' in results.get(rd['after'], {}) or 'status' in results.get(rd['after'], {}):
+                        break
                     await asyncio.sleep(0.001)
             tok = op_label.set(('sync', 'reconnect%d' % k))
             try:
-                ledger.network._connected.add(True)           # the network emits on_connected ...
+                ledger.network._on_connected_controller.add(True)   # the network emits on_connected ...
                 await ledger.join_network(True)               # ... and the ledger runs its handler
                 await ledger.db.db.run(lambda conn: None)      # a point at which the is_reserved column is sampled
             finally:
@@ -435,6 +529,14 @@ async def run_concurrent(world, case):
                         pass
     finally:
         ins.restore()
+        AddressManager.get_or_create_usable_address = orig_change_address
+        if debug_state is not None:
+            lg = logging.getLogger('lbry.wallet.ledger')
+            lg.setLevel(debug_state[1])
+            lg.propagate = debug_state[2]
+            lg.handlers = debug_state[3]
+            logging.root.handlers = debug_state[4]
+            logging.disable(debug_state[0])
         if case.get('locked'):
             for acc in funding:
                 acc.decrypt('password')
@@ -456,28 +558,38 @@ async def run_concurrent(world, case):
     for b in range(len(case['builds'])):
         r = results.get(b, {})
         pw = r.get('pre_wallet', [])
-        if r.get('status') == 'failed' or r.get('payer'):
+        if r.get('status') == 'failed' or r.get('payer') or r.get('fund_failed'):
             took = [rid_of[t] for t in ins.released.get(b, []) if t in rid_of]
         else:
             took = pw + r.get('added', [])
         impl['builds'].append({'phase': r.get('status', 'never-ran'),
                                'held': took if r.get('status') == 'finish' else [],
-                               'rounds': len(ins.asked.get(b, [])) - (1 if r.get('status') == 'failed' and not r.get('signfail') else 0),
+                               'rounds': len(ins.asked.get(b, [])) - (1 if r.get('status') == 'failed' and not r.get('signfail') and not r.get('cancelled') else 0),
                                'took': took})
     return impl, obs
 
 
-def schedule_of(events, n):
+def schedule_of(events, n, twice=(), cancelled=()):
     """the model schedule induced by the observed events: one entry per model step.
     A build's first critical section is the reservation of its pre-chosen inputs (PreLock, Pre, PreUnlock); every later
     one is a funding round (Lock, Read, Select, Reserve, Unlock)."""
     sched, in_round, marks = [], {}, {}
     holding, pre_over = set(), set()
+    skipping, skipped = set(), set()
     for kind, b, _ in events:
         if kind == 'sync':
             sched.append(n)       # Model/C14.step ignores indices that are no build: a no-op on the wallet and on reserved
             continue
         if not isinstance(b, int) or kind == 'sent':
+            continue
+        if b in twice and b in pre_over and b not in skipped and (kind == 'lock' or b in skipping):
+            # Account.fund(everything=True) has picked and reserved its outputs under the lock itself; create then
+            # reserves the same pre-chosen inputs once more: nothing changes, not a step of the model
+            if kind == 'lock':
+                skipping.add(b)
+            elif kind == 'unlock':
+                skipping.discard(b)
+                skipped.add(b)
             continue
         if kind == 'lock':
             holding.add(b)
@@ -509,6 +621,8 @@ def schedule_of(events, n):
             in_round[b] = 0
         elif kind in ('release', 'spend'):
             marks[b] = len(sched)          # position of the step that ends the build
+            if b in cancelled:
+                sched.append(b)            # the cancellation itself: the build leaves its program for Abort
             sched.append(b)
     return sched, marks
 
@@ -517,7 +631,9 @@ def model_run(model, case, obs, sched, upto=None):
     builds = []
     for b, d in enumerate(case['builds']):
         builds.append({'strategy': case['strategy'], 'amounts': obs['asked'].get(b, []),
-                       'broadcast': d['action'] == 'broadcast', 'sign': bool(d.get('sign')) or bool(d.get('payer')),
+                       'broadcast': d['action'] in ('broadcast', 'fund_amount', 'fund_everything'),
+                       'sign': bool(d.get('sign')) or bool(d.get('payer')) or bool(d.get('fund')),
+                       'quits': [len(obs['asked'].get(b, []))] if obs['results'].get(b, {}).get('cancelled') else None,
                        'order': obs['orders'].get(b), 'pre': obs['results'].get(b, {}).get('pre_wallet', []),
                        'start': bool(obs['asked'].get(b))})
     return model.call('run', fpb=case['fpb'], shuffles=obs['shuffles'], builds=builds,
@@ -545,7 +661,7 @@ def monitor(case, impl, obs):
             if not ids <= held.get(b, set()):
                 others = {x: sorted(h & ids) for x, h in held.items() if x != b and h & ids}
                 return ('the transaction of build %s was sent to the network although its inputs %s were no longer held by '
-                        'it (it had been released; now held by %s): a released transaction may not be sent later' % (
+                        'it (never reserved, or already released; now held by %s): only a transaction that still holds its inputs may be sent' % (
                             b, sorted(ids - held.get(b, set())), others))
             continue
         if snap is None or b is None:
@@ -675,7 +791,9 @@ def linearize(c03_model, case, impl, obs):
                 view = sorted(wallet, key=lambda e: pos.get(e[0][0], len(pos)))
             req = dict(fpb=case['fpb'], fpnc=case['fpnc'], strategy=case['strategy'], shuffles=obs['shuffles_by'].get(b, []),
                        pre=r['pre_desc'], outs=[c03.out_desc(o, None) for o in r['outs']], wallet=view,
-                       sign=bool(d.get('sign')), locked=bool(case.get('locked')), unsignable=obs['unsignable'])
+                       sign=bool(d.get('sign')) or bool(r.get('cancelled')),
+                       locked=bool(case.get('locked')) or bool(r.get('cancelled')),     # cancelled = fails after funding
+                       unsignable=obs['unsignable'])
             try:
                 m = c03_model.call('create', **req)
             except vlib.ModelError as e:
@@ -695,7 +813,9 @@ def linearize(c03_model, case, impl, obs):
                         e[1] = True
             else:
                 want[b] = {'result': m.get('result')}
-            if r.get('payer') and r.get('status') != 'failed':
+            if r.get('cancelled'):
+                got[b] = {'result': 'SignFails'}
+            elif (r.get('payer') or r.get('fund_failed')) and r.get('status') != 'failed':
                 # the payer does not hand out its transaction: only its inputs are known (what it released)
                 got[b] = {'result': 'ok', 'added': impl['builds'][b]['took']}
                 want[b].pop('change', None)
@@ -792,6 +912,27 @@ def gen_case(rng, tier):
         for _ in range(rng.choice([1, 1, 2])):
             syncs.append({'delay': rng.choice([0, 3, 10, 25, 60]), 'gap': rng.choice([0, 1, 4]),
                           'txs': sorted(rng.sample(range(len(txs)), rng.randrange(1, len(txs) + 1)))})
+    for d in builds:
+        if fund == 0 and not two and not locked and not d['pre'] and d['outs'] and rng.random() < 0.1:
+            # the real Account.fund(to_account, amount, broadcast=True); sometimes the server rejects the transaction
+            d.update(fund='amount', action=rng.choice(['fund_amount', 'fund_amount', 'fund_reject']), sign=False)
+        elif not two and d['outs'] and not d['pre'] and rng.random() < 0.08:
+            # the caller cancels the build while it waits for its change address
+            d.update(action='cancel_change', sign=False)
+    if fund == 0 and not two and not locked and rng.random() < 0.08:
+        # Account.fund(everything=True) sweeps the account while payments are being built
+        builds.append({'outs': [], 'pre': [], 'fund': 'everything', 'action': 'fund_everything', 'sign': False,
+                       'delay': rng.choice([0, 0, 1, 3, 8]), 'hold_yields': 0, 'yields': [rng.choice([0, 0, 1, 2]) for _ in range(40)]})
+        n = len(builds)
+        # half of the time aimed at the window: a payment has read the wallet and waits (inside its critical section)
+        # while the sweep starts; a sweep that does not take the reservation lock would grab what the payment then selects
+        payers_ = [i for i, d in enumerate(builds[:-1]) if d['outs'] and not d['pre'] and not d.get('fund') and not d.get('payer')
+                   and d['action'] != 'cancel_change']
+        if payers_ and rng.random() < 0.5:
+            x = rng.choice(payers_)
+            builds[x]['after_read_wait_for_pre'] = n - 1
+            builds[x]['delay'] = 0
+            builds[-1]['after_read_of'] = x
     release_others = []
     if fund == 0 and not two and rng.random() < 0.25:
         for _ in range(rng.choice([1, 1, 2])):
@@ -823,13 +964,15 @@ def gen_case(rng, tier):
     rng.shuffle(order)
     return {'kind': 'concurrent', 'fpb': fpb, 'fpnc': 0, 'strategy': strategy, 'funding': [0, 1] if two else [fund],
             'change': fund, 'txs': txs, 'locked': locked, 'syncs': syncs, 'reconnects': reconnects, 'release_others': release_others,
+            'debug_log': rng.random() < 0.15,
             'reserved': [], 'builds': builds, 'start_order': order, 'seed': rng.getrandbits(32)}
 
 
 async def check_concurrent(run, world, model, case, kind, c03_model=None):
     impl, obs = await run_concurrent(world, case)
     n = len(case['builds'])
-    sched, marks = schedule_of(obs['events'], n)
+    sched, marks = schedule_of(obs['events'], n, twice={b for b, d in enumerate(case['builds']) if d.get('fund') == 'everything'},
+                               cancelled={b for b, r in obs['results'].items() if r.get('cancelled')})
     run.case(dict(case, origin=kind), nontrivial=sum(1 for b in impl['builds'] if b['took']) >= 2)
     run.count('builds:%d' % n)
     run.count('strategy:%s' % case['strategy'])
@@ -837,6 +980,11 @@ async def check_concurrent(run, world, model, case, kind, c03_model=None):
         run.count('locked-account')
     if case.get('syncs'):
         run.count('sync re-saves funding transactions', sum(1 for k, b, _ in obs['events'] if k == 'sync' and str(b).startswith('sync')))
+    if case.get('debug_log'):
+        run.count('ledger logger at DEBUG')
+    run.count('Account.fund(amount, broadcast=True) builds', sum(1 for d in case['builds'] if d.get('fund') == 'amount'))
+    run.count('Account.fund(everything=True) builds', sum(1 for d in case['builds'] if d.get('fund') == 'everything'))
+    run.count('builds cancelled by their caller', sum(1 for r in obs['results'].values() if r.get('cancelled')))
     if case.get('release_others'):
         run.count('release_all_outputs(another account) during the builds', len(case['release_others']))
     run.count('broadcast with the connection down', sum(1 for d in case['builds'] if d['action'] == 'broadcast_down'))
@@ -871,6 +1019,11 @@ async def check_concurrent(run, world, model, case, kind, c03_model=None):
     if bad:
         run.violation(dict(case, sched=sched, events=[[k, b] for k, b, _ in obs['events']]), bad,
                       signature={'case': vlib.canon(case)})
+        return
+    if any(d.get('fund') == 'everything' for d in case['builds']):
+        # what Account.fund(everything=True) sweeps is whatever is free when it gets the lock: that set is not an input
+        # of the model's build description, so these runs are judged by the monitor alone
+        run.count('runs with Account.fund(everything=True): monitor only')
         return
     try:
         mod = model_run(model, case, obs, sched)
@@ -929,7 +1082,7 @@ async def amain(run, only=None):
             case.pop('origin', None)
             case.pop('sched', None)
             await check_concurrent(run, world, model, case, 'corpus', c03_model)
-        for _ in range(vlib.scaled(run.tier, 800, 24000)):
+        for _ in range(vlib.scaled(run.tier, 600, 24000)):
             await check_concurrent(run, world, model, gen_case(run.rng, run.tier), 'generated', c03_model)
     finally:
         model.close()
